@@ -113,6 +113,10 @@ class Check:
     def on_worker_death(self, ctx, program, d):
         """The library process died (crash, exit(), abort, sanitizer report, hang) in the middle of a case.  No listed
         property can hold for a call that never returns, so by default this is a violation of the running check."""
+        if d.how == "hang":
+            # a call that did not return within the time limit is inconclusive (load, not a verdict): counted, never a violation
+            ctx.extra["inconclusive_hangs"] = ctx.extra.get("inconclusive_hangs", 0) + 1
+            return None
         tail = [l for l in (d.stderr or "").splitlines() if "ERROR:" in l or "SUMMARY" in l or " #0 " in l or " #1 " in l or " #2 " in l or " #3 " in l][:6]
         return Violation("the library process died during the case (%s %s)%s" % (d.how, d.detail, (": " + " | ".join(x.strip()[:160] for x in tail)) if tail else ""), program)
 
@@ -418,8 +422,8 @@ def main(check_cls, argv=None):
         if e:
             print("KNOWN-FINDING: property=%s %s [%s, %d hits]" % (check.pid, e["what"], kid, n))
     if merged["worker_deaths"]:
-        print("NOTE: the library process died in %d case(s) (crash / exit / sanitizer report); those cases are not judged by this "
-              "check - see worker_death_samples in the evidence; C17 owns crashes" % merged["worker_deaths"])
+        print("NOTE: the library process died or timed out in %d case(s) (samples: worker_death_samples in the evidence); a death is reported as a "
+              "violation of this check, a time-out (%d) is inconclusive and only counted" % (merged["worker_deaths"], merged["extra"].get("inconclusive_hangs", 0)))
     print("%s %s seed=%d: %d cases, %d distinct non-trivial, %d steps, %.1fs, evidence %s" % (
         check.pid, tier, seed, merged["evaluations"], len(merged["nontrivial"]), merged["steps"], wall, evpath))
     if violations:
